@@ -90,6 +90,19 @@ def handle (op : String) (j : Json) : R Json := do
       let dm : DMode := ⟨(← asStr a).toList, (← asStr b).toList, (← asStr c).toList, (← asStr d).toList⟩
       pure (Json.mkObj [("r", jChars (dmodeConst dm (← asInt (← fld j "idx"))))])
     | _ => throw "consts: close, open, request, open_and_request"
+  | "lit.ctxindent" =>
+    let c : PrintCtx ← match (← asStr (← fld j "ctx")) with
+      | "opArg" => pure .opArg
+      | "menuHeader" => pure .menuHeader
+      | "msgText" => pure .msgText
+      | "switchHeader" => pure .switchHeader
+      | "ssbsArg" => pure .ssbsArg
+      | x => throw s!"unknown printing context {x}"
+    let d ← asNat (← fld j "depth")
+    let s ← chars j "s"
+    -- indent of the context, and the guards of `s` there: as a constant string, as a value of a language string
+    pure (Json.mkObj [("indent", jNat (ctxIndent c d)), ("guard_const", .bool (Guard s (ctxIndent c d) true)),
+                      ("guard_lang", .bool (Guard s (ctxIndent c d + 1) false))])
   | _ => throw s!"unknown op {op}"
 
 end Drv.LitD
